@@ -197,6 +197,62 @@ func canonicalInput(p *Program, r *Report, rule string, roots []*ssa.Function) i
 	return n
 }
 
+// asciiFoldExact: wherever a function reachable from the decoders rewrites a byte of a copy of a string in place
+// (b := []byte(s); b[i] = f(b[i])), the rewriting happens only for bytes proved to be in 'A'..'Z' by the branch
+// conditions on the way to the store.  Folding case with c|0x20 on any other byte maps control characters onto
+// digits and punctuation onto letters: a string outside the alphabet would be rewritten into a valid one.
+func asciiFoldExact(p *Program, r *Report, rule string, roots []*ssa.Function) int {
+	n := 0
+	for _, fn := range p.Reachable(roots) {
+		if !p.InRepo(fn) {
+			continue
+		}
+		var lc *LinCtx
+		for _, b := range fn.Blocks {
+			for _, in := range b.Instrs {
+				st, ok := in.(*ssa.Store)
+				if !ok {
+					continue
+				}
+				ia, ok := st.Addr.(*ssa.IndexAddr)
+				if !ok {
+					continue
+				}
+				cv, ok := ia.X.(*ssa.Convert)
+				if !ok || !isStringType(cv.X.Type()) {
+					continue
+				}
+				// the byte being rewritten: a load of the same slice at the same index
+				var elem ssa.Value
+				for _, bb := range fn.Blocks {
+					for _, ii := range bb.Instrs {
+						if ld, ok := ii.(*ssa.UnOp); ok && ld.Op == token.MUL {
+							if ia2, ok := ld.X.(*ssa.IndexAddr); ok && ia2.X == ia.X && ia2.Index == ia.Index {
+								elem = ld
+							}
+						}
+					}
+				}
+				if elem == nil {
+					continue
+				}
+				n++
+				if lc == nil {
+					lc = NewLinCtx(p, fn)
+				}
+				lo, hi, okLo, okHi := charInterval(lc, MustCondsAtBlock(fn, b), elem)
+				exact := okLo && okHi && lo >= 'A' && hi <= 'Z'
+				how := fmt.Sprintf("the store is reached only for bytes in [%d, %d] ⊆ ['A', 'Z']", lo, hi)
+				if !exact {
+					how = "bytes outside 'A'..'Z' are rewritten too (no branch condition confines the byte to the upper-case letters): control characters and punctuation can be folded onto alphabet characters"
+				}
+				r.Add(rule, FnName(fn), "in-place case folding of the input touches upper-case ASCII letters only", st.Pos(), exact, how)
+			}
+		}
+	}
+	return n
+}
+
 // charInterval returns the tightest integer interval known for value c from conditions.
 func charInterval(lc *LinCtx, conds []Cond, c ssa.Value) (lo, hi int64, okLo, okHi bool) {
 	f := &Facts{}
